@@ -284,6 +284,10 @@ class SpanQuery(Query):
     def needs_spans(self):
         return True
 
+    def estimate_size(self, ixreader):
+        # A span query matches a subset of the documents of its wrapped query
+        return self.q.estimate_size(ixreader)
+
 
 class WrappingSpan(SpanQuery):
     def is_leaf(self):
